@@ -37,3 +37,13 @@ Proof. vm_compute. repeat split; reflexivity. Qed.
 (* NaN acquisition values are outside the guarantee: numpy sorts NaN last, the reversed order puts it first *)
 Example C17_nan_acquisition_not_maximal : xr_gt (XF 1 0) XNaN = false /\ proposal_ok [[0]; [1]] [XNaN; XF 1 0] 0 [0] = true.
 Proof. vm_compute. split; reflexivity. Qed.
+
+(* TPE: the surrogate is two kernel densities fitted on the best n_best training points and on the others; for every argsort result
+   (any permutation of range(n), ties in any order) the two index lists partition the training set: no point is fitted into both
+   densities, none is left out *)
+Theorem C17_tpe_split_partitions : forall (A : Type) (xs : list A) (d : A) perm n_best,
+  is_perm_of_range perm (length xs) = true -> (n_best <= length xs)%nat ->
+  let '(ib, iw) := tpe_split perm n_best in
+  Permutation.Permutation (map (fun i => nth i xs d) iw ++ map (fun i => nth i xs d) ib) xs /\ length ib = n_best.
+Proof. exact @tpe_split_partition. Qed.
+Print Assumptions C17_tpe_split_partitions.
